@@ -47,7 +47,7 @@ type c18Hit struct {
 type c18Rig struct {
 	c      *ctx
 	path   string
-	db     *um.VerifDB
+	db     *um.VerifC18DB
 	now    int64
 	noSync bool
 	ref    map[string]*c18Ref // by uid hex
@@ -57,7 +57,7 @@ type c18Rig struct {
 }
 
 func (g *c18Rig) open() {
-	db, err := um.VerifOpenDB(g.path, func() time.Time { return time.Unix(g.now, 0) }, g.noSync)
+	db, err := um.VerifC18OpenDB(g.path, func() time.Time { return time.Unix(g.now, 0) }, g.noSync)
 	if err != nil {
 		fmt.Fprintln(os.Stderr, "C18: cannot open database:", err)
 		os.Exit(3)
@@ -223,20 +223,20 @@ func (g *c18Rig) post(urlKind string, urlUID []byte, body *c18Body, why string) 
 }
 
 func c18ShowInfo(u um.UserInfo) string {
-	p32 := func(p um.MaybeInt32) string {
+	show32 := func(p um.MaybeInt32) string {
 		if p == nil {
 			return "-"
 		}
 		return fmt.Sprint(*p)
 	}
-	p64 := func(p um.MaybeInt64) string {
+	show64 := func(p um.MaybeInt64) string {
 		if p == nil {
 			return "-"
 		}
 		return fmt.Sprint(*p)
 	}
-	return fmt.Sprintf("cap=%s up=%s down=%s upc=%s downc=%s exp=%s", p32(u.SessionsCap), p64(u.UpRate), p64(u.DownRate),
-		p64(u.UpCredit), p64(u.DownCredit), p64(u.ExpiryTime))
+	return fmt.Sprintf("cap=%s up=%s down=%s upc=%s downc=%s exp=%s", show32(u.SessionsCap), show64(u.UpRate), show64(u.DownRate),
+		show64(u.UpCredit), show64(u.DownCredit), show64(u.ExpiryTime))
 }
 
 func c18InfoVals(u um.UserInfo) (v [6]int64, have [6]bool) {
@@ -469,7 +469,7 @@ func (g *c18Rig) upload(ups []c18Upd, now int64) {
 func (g *c18Rig) getUser(uid []byte, now int64) {
 	g.now = now
 	op := fmt.Sprintf("db.getuser uid=%s now=%d", c18UidArg(uid), now)
-	res, pan := server.VerifActivate(g.db.Manager(), uid)
+	res, pan := server.VerifC18Activate(g.db.Manager(), uid)
 	if pan != "" {
 		res = g.panicked(op, "GetUser", pan)
 	}
@@ -533,13 +533,13 @@ func c18Now(r *rng) int64 {
 	return int64(r.intn(3000)) - 200
 }
 
-func p64(v int64) *int64 { return &v }
+func c18p64(v int64) *int64 { return &v }
 
 func (g *c18Rig) randBody(uid []byte, subset int) *c18Body {
 	b := &c18Body{uid: uid}
 	for i := 0; i < 6; i++ {
 		if subset&(1<<i) != 0 {
-			b.fields[i] = p64(c18Val(g.c.r, i))
+			b.fields[i] = c18p64(c18Val(g.c.r, i))
 		}
 	}
 	return b
@@ -610,22 +610,22 @@ func c18(c *ctx) {
 	{
 		g := c18NewRig(c, &hits, idx, "witness mismatch")
 		idx++
-		g.post("ok", uidA, &c18Body{uid: uidB, fields: [6]*int64{p64(3)}}, "uid-mismatch")
+		g.post("ok", uidA, &c18Body{uid: uidB, fields: [6]*int64{c18p64(3)}}, "uid-mismatch")
 		g.get("ok", uidB)
 		g.list()
 		g.finish()
 		g = c18NewRig(c, &hits, idx, "witness partial record")
 		idx++
-		g.post("ok", uidA, &c18Body{uid: uidA, fields: [6]*int64{p64(-1)}}, "valid")
+		g.post("ok", uidA, &c18Body{uid: uidA, fields: [6]*int64{c18p64(-1)}}, "valid")
 		g.probeAll([][]byte{uidA})
 		g.finish()
 		g = c18NewRig(c, &hits, idx, "witness non-positive rate")
 		idx++
-		g.post("ok", uidA, &c18Body{uid: uidA, fields: [6]*int64{p64(1), p64(0), p64(5), p64(5), p64(5), p64(100)}}, "valid")
+		g.post("ok", uidA, &c18Body{uid: uidA, fields: [6]*int64{c18p64(1), c18p64(0), c18p64(5), c18p64(5), c18p64(5), c18p64(100)}}, "valid")
 		g.getUser(uidA, 50)
-		g.post("ok", uidA, &c18Body{uid: uidA, fields: [6]*int64{nil, p64(7), p64(math.MinInt64)}}, "valid")
+		g.post("ok", uidA, &c18Body{uid: uidA, fields: [6]*int64{nil, c18p64(7), c18p64(math.MinInt64)}}, "valid")
 		g.getUser(uidA, 50)
-		g.post("ok", uidA, &c18Body{uid: uidA, fields: [6]*int64{nil, p64(math.MaxInt64), p64(1)}}, "valid")
+		g.post("ok", uidA, &c18Body{uid: uidA, fields: [6]*int64{nil, c18p64(math.MaxInt64), c18p64(1)}}, "valid")
 		g.getUser(uidA, 50)
 		g.finish()
 		o.case_("witnesses", true)
